@@ -585,10 +585,25 @@ pub fn gen_schema(rng: &mut Rng, cfg: &GenCfg) -> SchemaModel {
         let mut must: Vec<FieldDef> = vec![];
         if cfg.iface_hierarchies {
             // 0–2 direct parents among the earlier interfaces (two parents with a common ancestor = a diamond)
-            let np = if i == 0 { 0 } else { [0, 1, 1, 1, 2, 2][rng.below(6)].min(i) };
+            let np = if i == 0 { 0 } else { [0, 0, 1, 1, 1, 2, 2][rng.below(7)].min(i) };
             let mut impls: Vec<String> = vec![];
-            for _ in 0..np {
-                let parent = &iface_defs[rng.below(i)];
+            // pairs of earlier interfaces that are unrelated to each other but share an ancestor: implementing both closes a diamond
+            let mut diamond_pairs: Vec<(usize, usize)> = vec![];
+            for a in 0..i {
+                for b in (a + 1)..i {
+                    let (da, db): (&TypeDef, &TypeDef) = (&iface_defs[a], &iface_defs[b]);
+                    let unrelated = !da.implements.iter().any(|x| x.0 == db.name) && !db.implements.iter().any(|x| x.0 == da.name);
+                    if unrelated && da.implements.iter().any(|x| db.implements.iter().any(|y| y.0 == x.0)) {
+                        diamond_pairs.push((a, b));
+                    }
+                }
+            }
+            let forced: Option<(usize, usize)> = if np == 2 && !diamond_pairs.is_empty() && rng.coin() { Some(diamond_pairs[rng.below(diamond_pairs.len())]) } else { None };
+            for j in 0..np {
+                let parent = match forced {
+                    Some((a, b)) => &iface_defs[if j == 0 { a } else { b }],
+                    None => &iface_defs[rng.below(i)],
+                };
                 for p in parent.implements.iter().map(|x| x.0.clone()).chain(std::iter::once(parent.name.clone())) {
                     if !impls.contains(&p) {
                         impls.push(p);
